@@ -194,6 +194,7 @@ def check_every_slot_written(ctx, F, tag, prefix):
 
 def check_tables(ctx, F, tag, prefix):
     check_every_slot_written(ctx, F, tag, prefix)
+    check_decode_reaches_every_value(ctx, F, tag, prefix)
     fb, lb = F.body(FROM), F.body(LOAD)
     # interleaving order: the k-th push per loop iteration in From stores tuple field inter[k]
     order = rpo(fb)
@@ -256,3 +257,43 @@ def check_tables(ctx, F, tag, prefix):
            "From rows: %s" % [(cname(c), u) for c, u in rows])
     ctx.floor("rl-index-fields" + tag, 3)
     ctx.floor("rl-index-readers" + tag, 3)
+
+
+DECODE = "rl_vector::RLVector::decode"
+
+
+def check_decode_reaches_every_value(ctx, F, tag, prefix):
+    """A gap or run length is a usize written as units of CODE_SHIFT data bits with a continuation flag; the decoder follows the
+    flags.  On the pinned tree its loop has no other bound.  A counted loop ("stop after k units so that corrupted flags cannot
+    overflow the shift") must still admit every value the encoder can write: k * CODE_SHIFT >= 64.  With k = 64 / CODE_SIZE = 16
+    (unit size for data bits) every length of 2^48 or more is cut off and the rest of the block is read out of step."""
+    if not F.has_body(DECODE):
+        return
+    b = F.body(DECODE)
+    try:
+        shift = F.const("rl_vector::RLVector::CODE_SHIFT")
+    except Undecided:
+        return
+    heads = [(bi, t) for bi, t in b.calls() if "ops::Range<" in callee_name(t) and callee_name(t).split("::")[-1] == "next" and bi in b.loop_blocks()]
+    if not heads:
+        ctx.ob(prefix + ".decode-reaches-every-value", DECODE + tag, loc(b.raw["span"]), True, "loop-bound",
+               "the decoding loop has no iteration bound: it ends at the first unit without the continuation flag")
+        return
+    ok = True
+    detail = []
+    for bi, t in heads:
+        end = None
+        for x in subterms(b.term_of_operand(t["args"][0])):
+            if x[0] == "adt" and x[1] == "std::ops::Range" and len(x) > 4:
+                st_, en_ = peel(x[4][0]), peel(x[4][1])
+                if st_[:2] == ("const", 0) and en_[0] == "const" and isinstance(en_[1], int):
+                    end = en_[1]
+        if end is None:
+            ok = None if ok else ok
+            detail.append("bound not a constant")
+        else:
+            detail.append("%d units * %d bits = %d" % (end, shift, end * shift))
+            if end * shift < 64:
+                ok = False
+    ctx.ob(prefix + ".decode-reaches-every-value", DECODE + tag, loc(b.raw["span"]), ok, "loop-bound",
+           "counted decoding loop: %s (every usize needs up to ceil(64 / %d) = %d units)" % ("; ".join(detail), shift, -(-64 // shift)), positive=(ok is False))
